@@ -64,13 +64,47 @@ def extract(repo):
     return out
 
 
+HARDENING = {  # constructor -> (asserted range, the three lambdas (psi_h, R, dR/dp)) that Props/C19Hardening.lean transcribes
+    "Linear": ("H >= 0", ["lambda p: 0.5 * H * p ** 2", "lambda p: H * p", "lambda p: H * (p * 0 + 1.0)"]),
+    "Voce": ("Q >= 0 and b > 0", ["lambda p: Q * (p + np.exp(-b * p) / b - 1 / b)", "lambda p: Q * (1 - np.exp(-b * p))", "lambda p: Q * b * np.exp(-b * p)"]),
+    "Swift": ("K > 0 and 0 < n < 1 and (eps0 > 0)", ["lambda p: K * ((eps0 + p) ** (n + 1) - eps0 ** (n + 1)) / (n + 1) - K * eps0 ** n * p", "lambda p: K * ((eps0 + p) ** n - eps0 ** n)",
+                                                    "lambda p: K * n * (eps0 + p) ** (n - 1)"]),
+}
+
+
+def hardening_forms(repo):
+    hard = ast.parse(open(os.path.join(repo, "EasyFEA", "Models", "InElastic", "IsotropicHardening.py"), encoding="utf-8").read())
+    ctors = [f.name for f in hard.body if isinstance(f, ast.FunctionDef) and not f.name.startswith("_")]
+    if sorted(ctors) != sorted(HARDENING):
+        raise Refuse(f"IsotropicHardening: constructors {ctors} (modelled: {sorted(HARDENING)})")
+    out = {}
+    for name, (rng, lambdas) in HARDENING.items():
+        fn = _fn(hard, name)
+        asserts = [ast.unparse(x.test) for x in fn.body if isinstance(x, ast.Assert)]
+        ret = fn.body[-1]
+        if not (isinstance(ret, ast.Return) and isinstance(ret.value, ast.Call) and ast.unparse(ret.value.func) == "IsotropicHardening"):
+            raise Refuse(f"IsotropicHardening.{name}: does not end with 'return IsotropicHardening(...)'")
+        got = [ast.unparse(a) for a in ret.value.args]
+        if asserts != [rng] or got != lambdas or ret.value.keywords:
+            raise Refuse(f"IsotropicHardening.{name}: asserted range {asserts} / lambdas {got} differ from the modelled ones ({rng}; {lambdas})")
+        out[name] = ["assert " + rng] + lambdas
+    return out
+
+
 def write(repo: str, outdir: str) -> dict:
     d = extract(repo)
+    hf = hardening_forms(repo)
     os.makedirs(outdir, exist_ok=True)
     rows = ",\n  ".join('("' + k + '", [' + ", ".join('"' + l.replace('"', "'").replace("\n", "\\n") + '"' for l in v) + "])" for k, v in d.items())
     txt = ("-- GENERATED by tools/py2lean/gen_c19.py from /repo/EasyFEA/Simulations/_inelastic.py, Models/InElastic/Yield.py, IsotropicHardening.py — do not edit\n"
-           f"namespace EasyFEAVerif.Gen.C19\n\ndef forms : List (String × List String) := [\n  {rows}]\n\nend EasyFEAVerif.Gen.C19\n")
+           f"namespace EasyFEAVerif.Gen.C19\n\ndef forms : List (String × List String) := [\n  {rows}]\n\n"
+           "/-- asserted parameter range and the lambdas (psi_h, R, dR/dp) of every isotropic hardening constructor -/\n"
+           "def hardeningForms : List (String × List String) := [\n  "
+           + ",\n  ".join('("' + k + '", [' + ", ".join('"' + l.replace('"', "'") + '"' for l in v) + "])" for k, v in hf.items())
+           + "]\n\nend EasyFEAVerif.Gen.C19\n")
     _write_if_changed(os.path.join(outdir, "Forms.lean"), txt)
+    d = dict(d)
+    d["hardeningForms"] = [x for v in hf.values() for x in v]
     return d
 
 
